@@ -76,6 +76,27 @@ theorem c04_default_short_floats (cfg : Cfg) (hfr : cfg.fr = false) (hap : cfg.a
   have hfl := c04_floats_roundtrip_short cfg hfr hap ext hext hr v hs
   ⟨c04_value cfg src ext hext v hwf hfl, fun indent hws => c04_value_pretty cfg src ext hext indent hws v hwf hfl⟩
 
+/-- the wider class: every `Float` of the value is finite and its printed text, digits as written, is below `2^53` with net
+    exponent within ±22 (contains `ShortFloats`: `c04_short_is_exact`) -/
+def ExactFloats (ext : Ext) (v : JV) : Prop := exactFloats ext v = true
+instance (ext : Ext) (v : JV) : Decidable (ExactFloats ext v) := inferInstanceAs (Decidable (_ = true))
+
+theorem c04_short_is_exact (ext : Ext) (v : JV) (h : ShortFloats ext v) : ExactFloats ext v :=
+  floatsIn_mono ext shortText exactText exactText_of_short v h
+
+/-- **C04 in the builds without `float_roundtrip`, wider window (`c04_default_exact_floats`).** As
+    `c04_default_short_floats` for the class `ExactFloats`: C08's exactness argument needs the significand below `2^53`, not
+    below `10^15` (`Proofs/FloatLiteral53.lean`), which admits the integral doubles that `ryu` prints with a trailing `.0` and
+    sixteen digits (`123456789012345.0`). -/
+theorem c04_default_exact_floats (cfg : Cfg) (hfr : cfg.fr = false) (hap : cfg.ap = false) (src : Src) (ext : Ext)
+    (hext : ExtOK ext) (hr : RyuShortest ext) (v : JV) (hwf : WFValue cfg v) (hs : ExactFloats ext v) :
+    (∃ bufs, serCompact ext (ofValue v) = .ok bufs ∧
+      parseTop ⟨cfg, src, .value⟩ bufs.flatten = .ok v) ∧
+    (∀ indent, Ws indent → ∃ bufs, serPretty ext indent (ofValue v) = .ok bufs ∧
+      parseTop ⟨cfg, src, .value⟩ bufs.flatten = .ok v) :=
+  have hfl : FloatsRoundTrip cfg ext v := floatsRT_of_exact (specCfg cfg) hfr hap ext hext hr v hs
+  ⟨c04_value cfg src ext hext v hwf hfl, fun indent hws => c04_value_pretty cfg src ext hext indent hws v hwf hfl⟩
+
 /-- **C04, typed data, builds without `float_roundtrip` (`c04_typed_default_short`).** The `f64` hypothesis `hF` of
     `c04_typed_partial` / `c04_typed_pretty_partial` discharged likewise: every `f64` member of the typed value and every float
     inside its `Value` members prints as a short literal (`ShortFloats` of the written document). What is still carried: `h32`
@@ -175,9 +196,17 @@ double (it is rounded to `80000000000000192`), and the quotient by `10` rounds t
 C04's class must therefore be read as C08 states it — digits and net exponent of the printed text — which is the reading of
 `ShortFloats` and of the generator `prints_short`. -/
 
-/-- `123456789012345.0`: outside the window, round-trips all the same -/
-example : ¬ ShortFloats ext1 (.num (.float 0x42dc12218377de40)) ∧
-    FloatsRoundTrip {} ext1 (.num (.float 0x42dc12218377de40)) := ⟨by decide, by decide +kernel⟩
+/-- `123456789012345.0`: outside the 15-digit window, inside the wider one (`c04_default_exact_floats` applies), round-trips -/
+example : ¬ ShortFloats ext1 (.num (.float 0x42dc12218377de40)) ∧ ExactFloats ext1 (.num (.float 0x42dc12218377de40)) ∧
+    FloatsRoundTrip {} ext1 (.num (.float 0x42dc12218377de40)) := ⟨by decide, by decide, by decide +kernel⟩
+
+/-- the pointwise wider-window lemma applies to the text `123456789012345.0` -/
+example : Spec.Canon.numOf (specCfg {}) (splitNumber
+      [0x31, 0x32, 0x33, 0x34, 0x35, 0x36, 0x37, 0x38, 0x39, 0x30, 0x31, 0x32, 0x33, 0x34, 0x35, 0x2e, 0x30]) =
+    some (.float 0x42dc12218377de40) :=
+  numOf_exact_at (specCfg {}) rfl rfl _ 0x42dc12218377de40
+    ⟨⟨false, [0x31, 0x32, 0x33, 0x34, 0x35, 0x36, 0x37, 0x38, 0x39, 0x30, 0x31, 0x32, 0x33, 0x34, 0x35], [0x2e, 0x30], []⟩, rfl, rfl⟩
+    ⟨by decide, by decide, by decide⟩ (by decide) (by decide +kernel)
 
 /-- **c04_default_long_fails.** `8000000000000020.0` (bits `0x433c6bf526340014`; `ryu` prints exactly this text, its exact
     value IS the double) is read back by the default build as `8000000000000019.0` (`0x433c6bf526340013`): outside
@@ -187,9 +216,9 @@ theorem c04_default_long_fails :
     (Spec.Canon.numOf (specCfg {}) (splitNumber (ext1.ryu64 0x433c6bf526340014)) == some (.float 0x433c6bf526340013)) = true ∧
     (Spec.Canon.numOf (specCfg { fr := true }) (splitNumber (ext1.ryu64 0x433c6bf526340014)) == some (.float 0x433c6bf526340014)) = true ∧
     roundNE64 false 8000000000000020 1 = some 0x433c6bf526340014 ∧
-    shortText (ext1.ryu64 0x433c6bf526340014) = false ∧
+    shortText (ext1.ryu64 0x433c6bf526340014) = false ∧ exactText (ext1.ryu64 0x433c6bf526340014) = false ∧
     ¬ FloatsRoundTrip {} ext1 (.num (.float 0x433c6bf526340014)) := by
-  refine ⟨by decide +kernel, by decide +kernel, by decide +kernel, by decide, by decide +kernel⟩
+  refine ⟨by decide +kernel, by decide +kernel, by decide +kernel, by decide, by decide, by decide +kernel⟩
 
 /-- **c04_default_sci15_fails.** `7.40865532228085e-9` (15 digits, net exponent −23): the default build returns
     `0x3e3fd1e7159470e6` (`7.408655322280851e-9`), the correctly rounded double is `0x3e3fd1e7159470e5` -/
@@ -198,7 +227,9 @@ theorem c04_default_sci15_fails :
         0x35, 0x65, 0x2d, 0x39]) == some (.float 0x3e3fd1e7159470e6)) = true ∧
     roundNE64 false 740865532228085 (10 ^ 23) = some 0x3e3fd1e7159470e5 ∧
     shortText [0x37, 0x2e, 0x34, 0x30, 0x38, 0x36, 0x35, 0x35, 0x33, 0x32, 0x32, 0x32, 0x38, 0x30, 0x38, 0x35, 0x65, 0x2d, 0x39]
+      = false ∧
+    exactText [0x37, 0x2e, 0x34, 0x30, 0x38, 0x36, 0x35, 0x35, 0x33, 0x32, 0x32, 0x32, 0x38, 0x30, 0x38, 0x35, 0x65, 0x2d, 0x39]
       = false := by
-  refine ⟨by decide +kernel, by decide +kernel, by decide⟩
+  refine ⟨by decide +kernel, by decide +kernel, by decide, by decide⟩
 
 end SJ.Props.C04Short
